@@ -39,17 +39,40 @@ def generate(rng, tier, index, backends):
     r = common.pick_rpc(rng, n)
     n_sel = 10 if tier == "quick" else 24
     sels = [select.gen_selection(rng, n, p) for _ in range(n_sel)]
+    # the same lines again with another column window (tiled access): per-rows memos are hit
+    for _ in range(3):
+        src = rng.choice(sels)
+        rows_ix = src.get("rows") if src["kind"] == "isel" else (
+            src["key"][0] if src["kind"] == "getitem" else None)
+        again = {"kind": "isel", "columns": select.gen_index(rng, p)}
+        if rows_ix is not None:
+            again["rows"] = rows_ix
+        sels.insert(rng.randrange(len(sels) + 1), again)
+    scan = []
+    if n >= 3 and rng.random() < 0.6:
+        # sequential reading: 3-6 consecutive loads, each starting right after the previous one
+        # (line by line or block by block) - kept together at the end of the workload
+        b = rng.choice([1, 1, 2, 3, max(n // 4, 1)])
+        a = rng.randrange(0, max(n - 3 * b, 1))
+        for j in range(rng.randint(3, 6)):
+            lo, hi = a + j * b, a + (j + 1) * b
+            if lo >= n:
+                break
+            rows_ix = {"int": lo} if b == 1 and rng.random() < 0.5 else {"slice": [lo, hi, None]}
+            scan.append({"kind": "isel", "rows": rows_ix})
     if n * p >= 200000:
         # big files: rows that are far apart in the file (strides of a tenth to all of the lines)
         for step in (max(n // 2, 2), max(n // 3, 2), max(n // 10, 2), max(n - 1, 2)):
             sels.append({"kind": "isel", "rows": {"slice": [rng.choice([None, 0, 1, 3]), None,
                                                             step * rng.choice([1, 1, -1])]}})
+    sels += scan
     enum = None
     if n <= 4 and p <= 4 and rng.random() < (0.5 if tier == "quick" else 1.0):
         # quick: a seeded sample of the complete int/slice family, thorough: all of it
         enum = {"axis": rng.choice(["rows", "rows", "columns"]),
                 "sample": 150 if tier == "quick" else None, "seed": rng.randrange(2**31)}
-    return {"world": wp, "rpc": r, "image": k, "selections": sels, "enumerate": enum}
+    return {"world": wp, "rpc": r, "image": k, "selections": sels, "enumerate": enum,
+            "scribble_results": rng.random() < 0.5}
 
 
 def _same(res, ref, level, full=False):
@@ -221,6 +244,16 @@ def execute(plan, props):
                     if why is not None:
                         violations.append(Violation("C02", "mismatch", cls, {
                             "selection": sel, "why": why, "shape": [n, p], "rpc": r}))
+                    elif plan.get("scribble_results") and k_sel % 2 == 1:
+                        # the caller owns what it was given: it changes the values in place
+                        # (calibration of a tile); later selections must not see that
+                        try:
+                            vals = got.values
+                            if vals.size and vals.flags.writeable:
+                                vals[...] = vals + 1
+                                bump("results-modified-in-place")
+                        except Exception:  # noqa: BLE001 - read-only result: nothing to do
+                            pass
                     elif len(kept) < 8 and got.size:
                         kept.append((cls, sel, got, want))
             if "C11" in props and w.backend in world.RECORDED and err is None:
